@@ -35,7 +35,7 @@ theorem accepted_ranks_distinct (cs : List OrdField) (r : Ranked)
   have kb := expectedEntries_key cs 0 b (by simpa using hp.subset hb)
   rw [← ka, ← kb]; exact hab
 
-theorem arm_correct {V : Type} (ops : OrdOps V) (p : Bool) (k : Nat) (v : OrdVariant) (hv : v.WF)
+theorem cmp_arm_correct {V : Type} (ops : OrdOps V) (p : Bool) (k : Nat) (v : OrdVariant) (hv : v.WF)
     (a : CmpArm) (ha : arm v = some a) (hnu : v.shape ≠ .unit)
     (xs ys : List V) (hx : xs.length = v.fields.length) (hy : ys.length = v.fields.length) :
     Sem.evalCmpStmts ops p
@@ -151,7 +151,7 @@ theorem cmp_correct {V : Type} (ops : OrdOps V) (p : Bool) (t : OrdType) (ht : t
     | none => simp [has] at hbd
     | some as =>
       simp [has] at hbd; subst hbd
-      obtain ⟨hlen, hget⟩ := arms_get vs as has
+      obtain ⟨hlen, hget⟩ := cmp_arms_get vs as has
       have hka : ka < vs.length := (List.getElem?_eq_some_iff.mp hva).1
       have hkb : kb < vs.length := (List.getElem?_eq_some_iff.mp hvb).1
       have hne : as.isEmpty = false := by
@@ -209,7 +209,7 @@ theorem cmp_correct {V : Type} (ops : OrdOps V) (p : Bool) (t : OrdType) (ht : t
               cases hr : rankFields 0 vb.fields [] <;> simp [hr] at harma
               subst harma; rfl
           simp only [hall, harm_nu, Bool.false_eq_true, if_false, if_true]
-          exact arm_correct ops p ka vb hwf arma harma hu xs ys hla hlb
+          exact cmp_arm_correct ops p ka vb hwf arma harma hu xs ys hla hlb
       · -- different variants: the discriminants decide; on a tie every path returns `Equal`
         simp only [hab, if_false]
         cases hc : compareInt (Sem.evalDisc da) (Sem.evalDisc db) with
